@@ -22,6 +22,7 @@ type Solver struct {
 	dead    bool
 	kind    string
 	timeoutMs int
+	curTimeout int
 }
 
 var solverSeq int64
@@ -84,6 +85,7 @@ func (s *Solver) Reset() {
 		s.raw("(reset)\n(set-logic ALL)\n(set-option :produce-models true)\n")
 	} else {
 		s.raw(fmt.Sprintf("(reset)\n(set-option :timeout %d)\n(set-option :produce-models true)\n", s.timeoutMs))
+		s.curTimeout = s.timeoutMs
 	}
 	s.raw(Prelude)
 }
@@ -242,4 +244,13 @@ func tokenize(s string) []string {
 	}
 	flush()
 	return toks
+}
+
+// SetTimeout changes the per-query time limit (z3 only; cvc5 keeps its start-up limit).
+func (s *Solver) SetTimeout(ms int) {
+	if s.kind == "cvc5" || ms <= 0 || ms == s.curTimeout {
+		return
+	}
+	s.curTimeout = ms
+	s.raw(fmt.Sprintf("(set-option :timeout %d)\n", ms))
 }
